@@ -1,5 +1,5 @@
 From Coq Require Import Extraction ExtrOcamlBasic.
-From NPS Require Import ListAux PySlice NumpySem Shape Scatter BuildIdx View Index RowsSpec XorBroadcast Reduce RLE Assign AssignSpec Hash MapSpec HashRun BitArr RLEOps Scan RaOps RLEWindowsVec RLE2d DataClass IdxWidth Geometry HeapRun Heap DataClassProof Struct2 FastIndices.
+From NPS Require Import ListAux PySlice NumpySem Shape Scatter BuildIdx View Index RowsSpec XorBroadcast Reduce RLE Assign AssignSpec Hash MapSpec HashRun BitArr RLEOps Scan RaOps RLEWindowsVec RLE2d RL2Any DataClass IdxWidth Geometry HeapRun Heap DataClassProof Struct2 FastIndices.
 Definition getitem_model_Z (r : list (list Z)) (idx : index) : res (result Z) :=
   rbind (getitem (ra_of_rows r) idx) observe.
 Definition getitem_spec_Z (r : list (list Z)) (idx : index) : res (result Z) := spec_getitem r idx.
@@ -89,6 +89,12 @@ Definition mi_model (ls : list Z) :=
   (map (unravel_mi c) (ap 0 (sh_size c) 1), map (fun ij => ravel_mi c (fst ij) (snd ij)) (cells_of ls)).
 Definition mi_spec (ls : list Z) := (cells_of ls, ap 0 (zsum ls) 1).
 (* ---- C18 ---- *)
+(* any(axis=0) of a matrix: the code's representation (boundaries, values as 0/1) and its dense decoding; spec: the column-wise OR of the rows *)
+Definition rl2_any_Z (rows : list (list Z)) : (list Z * list Z) * list Z * list Z :=
+  let r := col_any (from_matrix rows) in
+  let b2z (b : bool) := if b then 1 else 0 in
+  ((fst r, map b2z (snd r)), map b2z (decode bool r),
+   match rows with [] => [] | r0 :: _ => map (fun j => b2z (existsb (fun row => negb (nth j row 0 =? 0)) rows)) (seq 0 (length r0)) end).
 Definition dc_new (o : list (list Z)) : res Z := rmap (obj_len Z) (mk_obj Z o).
 Definition dc_new_spec (o : list (list Z)) : res Z :=
   match o with [] => Ok 0%Z | f :: r => if forallb (fun g => zlen g =? zlen f) r then Ok (zlen f) else Refused end.
@@ -102,4 +108,4 @@ Definition dc_item_spec (o : list (list Z)) (i : Z) := np_item (dc_entries o) i.
 Definition dc_concat (os : list (list (list Z))) := obj_concat Z os.
 Definition dc_eq (o o' : list (list Z)) : bool := Nat.eqb (length o) (length o') && obj_eqb Z Z.eqb o o'.
 Definition dc_concat_spec (os : list (list (list Z))) := cols Z 0%Z (match os with [] => O | o :: _ => length o end) (flat_map dc_entries os).
-Extraction "oracle_core.ml" geo_model geo_spec build_model build_spec flat_model flat_spec tonumpy_model tonumpy_spec fromnumpy_model offsets_model offsets_spec mi_model mi_spec heap_run dc_new dc_new_spec dc_select dc_select_spec dc_item dc_item_spec dc_iter dc_astype dc_concat dc_concat_spec dc_eq from_ragged from_matrix rl2_obs rl2_select rl2_elem rl2_col rl2_sum rl2_max rl2_argmax rl2_ravel rl2_concat rl2_map rl2_map_col rl2_col_counts rl2_col_sum rl2_col_range rl2_intervals varlen_concat op_ufunc op_reduce op_cumsum op_accumulate op_diff op_sort op_unique op_nonzero op_subset op_rslice op_rslice1d op_rslice2d op_padded op_colsum op_colcounts op_argmax op_argmin rle_windows_Z rle_rlmask_Z op_fastidx op_where op_where_s op_like op_concat1 rle_encode rle_to_array rle_slice rle_slice_spec rle_get rle_bin rle_bin_spec rle_concat_Z rle_sum_Z rle_decode bit_unpack bit_get bit_getlist bit_window spec_windows Z.add Z.mul Z.opp Z.div_eucl Z.ltb hash_model hash_spec hash_eq hash_add setitem_model_Z setitem_spec_Z getitem_model_Z getitem_spec_Z chain_model_Z chain_spec_Z shape_codes sh_starts sh_lengths sh_size excl_prefix.
+Extraction "oracle_core.ml" geo_model geo_spec build_model build_spec flat_model flat_spec tonumpy_model tonumpy_spec fromnumpy_model offsets_model offsets_spec mi_model mi_spec heap_run dc_new dc_new_spec dc_select dc_select_spec dc_item dc_item_spec dc_iter dc_astype dc_concat dc_concat_spec dc_eq from_ragged from_matrix rl2_obs rl2_select rl2_elem rl2_col rl2_sum rl2_max rl2_argmax rl2_ravel rl2_concat rl2_map rl2_map_col rl2_col_counts rl2_col_sum rl2_col_range rl2_intervals rl2_any_Z varlen_concat op_ufunc op_reduce op_cumsum op_accumulate op_diff op_sort op_unique op_nonzero op_subset op_rslice op_rslice1d op_rslice2d op_padded op_colsum op_colcounts op_argmax op_argmin rle_windows_Z rle_rlmask_Z op_fastidx op_where op_where_s op_like op_concat1 rle_encode rle_to_array rle_slice rle_slice_spec rle_get rle_bin rle_bin_spec rle_concat_Z rle_sum_Z rle_decode bit_unpack bit_get bit_getlist bit_window spec_windows Z.add Z.mul Z.opp Z.div_eucl Z.ltb hash_model hash_spec hash_eq hash_add setitem_model_Z setitem_spec_Z getitem_model_Z getitem_spec_Z chain_model_Z chain_spec_Z shape_codes sh_starts sh_lengths sh_size excl_prefix.
